@@ -261,3 +261,4 @@ Print Assumptions C08_rchunks_mirror.
 Print Assumptions C08_rchunks_exact_mirror.
 Print Assumptions C08_mirror_is_reversal.
 Print Assumptions C08_chunks_exact_cut.
+Print Assumptions C08_chunks_example.
